@@ -1,4 +1,6 @@
 import MirProofs.Lemmas.Entropy
+import MirProofs.Lemmas.EmiSupport
+import MirProofs.Lemmas.BeatInfoFinite
 import MirProofs.Props.C01_Beat
 /-!
   C01 (entropy-based scores) — the ranges of the scores that are built from Shannon entropies, for ALL inputs,
@@ -6,12 +8,14 @@ import MirProofs.Props.C01_Beat
   driver runs the same definitions at `Float`).  Everything rests on `log t ≤ t − 1`.
 
   * `beat.information_gain` ∈ [0, 1]                     (`information_gain_range`, `information_gain_public_range`)
+  * … and a number (not nan) for strictly increasing estimated beats   (`information_gain_finite_of_increasing`)
   * `_get_entropy`: 0 ≤ H ≤ log2 #{non-empty bins} ≤ log2 bins   (`get_entropy_range`)
   * `_entropy(labels)`: 0 ≤ H ≤ log #labels                (`label_entropy_range`)
   * 0 ≤ MI ≤ min(H(ref), H(est))                          (`mi_range`)
   * NMI ∈ [0, 1]                                          (`nmi_range`)
   * NCE over / under / F ∈ [0, 1], both normalisations    (`nce_range`), V-measure (`vmeasure_range`)
   * AMI ≤ 1, EMI = hypergeometric expectation ≤ H          (`ami_le_one`, `emi_hypergeometric`, `emi_le_entropy`)
+  * the loop's range is the whole support: weights sum to 1 (`hyp_weights_sum_one`, `emi_hypergeometric_full_support`)
   * textbook forms of `_entropy` and of the NCE / V body  (`entropy_textbook`, `nce_textbook`)
 -/
 namespace Mir.C01.Entropy
@@ -106,6 +110,47 @@ theorem information_gain_finite_partial (ref est : List Rat) (bins : Nat) (r : O
   rintro x rfl
   exact information_gain_range ref est bins x tie hb h
 
+/-- every backward beat error is finite when the estimated beats are strictly increasing (at least two): the
+    interval each reference beat is measured against is a difference of two different estimated beats. -/
+theorem backward_beat_errors_finite (ref est : List Rat) (hinc : est.Pairwise (· < ·)) (hlen : 2 ≤ est.length) :
+    ∃ vb, Beat.beatErrors est ref = .ok vb ∧ vb.length = ref.length :=
+  Beat.beatErrors_length_of_increasing hinc hlen ref
+
+/-- **Input-level sufficient condition for a finite score.** If the estimated beats are strictly increasing, the
+    information gain is a number in [0, 1] — for ANY reference sequence and any `bins ≥ 2` (with fewer than two beats
+    on a side the code returns 0; otherwise every backward beat error is finite, `backward_beat_errors_finite`, so the
+    hypothesis of `information_gain_finite_partial` holds). The nan finding therefore needs coincident estimated
+    beats. -/
+theorem information_gain_finite_of_increasing (ref est : List Rat) (bins : Nat) (hb : 2 ≤ bins)
+    (hinc : est.Pairwise (· < ·)) :
+    ∃ x tie, Beat.informationGainCore Beat.realOps ref est bins = .ok (some x, tie) ∧ 0 ≤ x ∧ x ≤ 1 := by
+  obtain ⟨x, tie, h⟩ := Beat.informationGainCore_some_of_increasing (ref := ref) (bins := bins) (by omega) hinc
+  exact ⟨x, tie, h, information_gain_range ref est bins x tie hb h⟩
+
+/-- the same for the public function on validated input -/
+theorem information_gain_public_finite_of_increasing (ref est : List Rat) (bins : Nat) (hb : 2 ≤ bins)
+    (hv : Beat.validate ref est = .ok ()) (hinc : est.Pairwise (· < ·)) :
+    ∃ x tie, Beat.informationGain Beat.realOps ref est bins = .ok (some x, tie) ∧ 0 ≤ x ∧ x ≤ 1 := by
+  obtain ⟨x, tie, h, hr⟩ := information_gain_finite_of_increasing ref est bins hb hinc
+  refine ⟨x, tie, ?_, hr⟩
+  unfold Beat.informationGain
+  rw [Beat.validate_bind_ok]
+  exact ⟨hv, h⟩
+
+/-- **Input-level necessary condition for nan.** On validated input (`validate`: non-decreasing beats) the score is
+    nan only if two CONSECUTIVE estimated beats coincide: `est = pre ++ a :: a :: post`. (The witness of
+    `information_gain_finite_full_statement_false` has `est = [5.5, 5.5]`.) -/
+theorem information_gain_nan_needs_coincident_beats (ref est : List Rat) (bins : Nat) (tie : Bool) (hb : 2 ≤ bins)
+    (hv : Beat.validate ref est = .ok ())
+    (h : Beat.informationGain Beat.realOps ref est bins = .ok (none, tie)) :
+    ∃ pre a post, est = pre ++ a :: a :: post :=
+  Beat.informationGain_none_needs_dup (by omega) hv h
+
+example : ([11 / 2, 6] : List Rat).Pairwise (· < ·) ∧ 2 ≤ ([11 / 2, 6] : List Rat).length ∧
+    Beat.validate [5, 6, 7] [11 / 2, 6] = .ok () ∧
+    Beat.beatErrors [11 / 2, 6] [5, 6, 7] = .ok [0, 0, 0] := by
+  refine ⟨by simp; norm_num, by simp, by decide +kernel, by decide +kernel⟩
+
 /-! ### segment: entropies, MI, NMI -/
 
 /-- **`_entropy(labels)`** of a non-empty frame-label sequence: `0 ≤ H ≤ log #labels`
@@ -186,6 +231,36 @@ theorem emi_hypergeometric (a b : List Nat) (n : Nat) (ha : ∀ x ∈ a, x ≤ n
     Segment.expectedMI (α := ℝ) a b n =
       (a.map fun ai => (b.map fun bj => ((loopRange n ai bj).map fun k => emiTerm n ai bj k).sum).sum).sum :=
   expectedMI_real ha hb
+
+/-- **The hypergeometric weights sum to 1 (Vandermonde).** For row sum `a`, column sum `b`, total `n` (`a, b ≤ n`)
+    the weights `hyp n a b k = C(a,k) C(n−a, b−k) / C(n,b)` over the loop's own range of `k`
+    (`loopRange`: `max(1, a+b−n) … min(a,b)`) plus the `k = 0` weight sum to 1, every weight being ≥ 0: the loop
+    covers the whole support except `k = 0`. -/
+theorem hyp_weights_sum_one (n a b : Nat) (ha : a ≤ n) (hb : b ≤ n) :
+    (∀ k, 0 ≤ hyp n a b k) ∧ hyp n a b 0 + ((loopRange n a b).map fun k => hyp n a b k).sum = 1 :=
+  ⟨hyp_nonneg n a b, hyp_zero_add_sum_loop ha hb⟩
+
+/-- **EMI is exactly the expectation of the MI summand under the hypergeometric law:** the loop's range may be
+    replaced by the whole support `k = 0 … min(a_i, b_j)` (`Mir.Hypergeom.hypExpect`, total mass 1 by
+    `Mir.Hypergeom.hypExpect_const`), because the summand `(k/n)(log(n k) − log(a_i b_j))` vanishes at `k = 0` and
+    the weight vanishes for `k < a_i + b_j − n`. -/
+theorem emi_hypergeometric_full_support (a b : List Nat) (n : Nat) (ha : ∀ x ∈ a, x ≤ n) (hb : ∀ y ∈ b, y ≤ n) :
+    Segment.expectedMI (α := ℝ) a b n =
+      (a.map fun ai => (b.map fun bj =>
+        Mir.Hypergeom.hypExpect n ai bj (fun k =>
+          ((k : ℝ) / (n : ℝ)) * (Real.log ((n : ℝ) * (k : ℝ)) - Real.log ((ai : ℝ) * (bj : ℝ))))).sum).sum := by
+  rw [expectedMI_real ha hb]
+  congr 1
+  apply List.map_congr_left
+  intro ai hai
+  congr 1
+  apply List.map_congr_left
+  intro bj _
+  rw [sum_loop_emiTerm (ha ai hai)]
+  rfl
+
+example : hyp 4 2 3 0 = 0 ∧ loopRange 4 2 3 = [1, 2] ∧ hyp 4 2 3 1 + hyp 4 2 3 2 = 1 := by
+  refine ⟨by norm_num [hyp, Nat.choose], by decide, by norm_num [hyp, Nat.choose]⟩
 
 /-- **EMI ≤ H(rows)** for positive marginals `a`, `b` of a table with total `n` (log-monotonicity termwise, then the
     hypergeometric mean `Σ_k k·Hyp(k) ≤ a b / n` from Vandermonde's identity). -/
